@@ -81,6 +81,8 @@ HARMLESS = [
     ('C17', 'sc3/synth/server.py', "            for i in range(block.address, block.address + block.size):\n                bundle.append(['/b_free', i])", "            first = block.address\n            for i in range(first, first + block.size):\n                bundle.append(['/b_free', i])", 'local for the first number of a block in _free_all_buffers'),
     ('C04', 'sc3/synth/synthdef.py', "        names = [x.name for x in params]\n        names = names[skip_args:]\n        values = self._get_valid_arg_values(params)\n        values = values[skip_args:]", "        used = params[skip_args:]\n        names = [x.name for x in used]\n        values = self._get_valid_arg_values(used)", 'parameters sliced once before names and values are taken'),
     ('C04', 'sc3/synth/synthdef.py', "            overridden = lag in rate_names", "            overridden = lag in ('ar', 'kr', 'ir', 'tr')", 'rate names spelled out in the override test'),
+    ('C18', 'sc3/base/responders.py', "        func = self.wrap_func(func_proxy)\n        old_func = self.wrapped_funcs[func_proxy]\n        self.wrapped_funcs[func_proxy] = func", "        old_func = self.wrapped_funcs[func_proxy]\n        func = self.wrap_func(func_proxy)\n        self.wrapped_funcs[func_proxy] = func", 'old wrapped function read before the new one is made'),
+    ('C13', 'sc3/seq/patterns/filterpatterns.py', "            for _ in bi.counter(self.repeats):\n                inevent[key] = True", "            repeats = self.repeats\n            for _ in bi.counter(repeats):\n                inevent[key] = True", 'local for the repeat count in Pn with a key'),
 ]
 
 BREAKING = [
@@ -143,6 +145,13 @@ BREAKING = [
     ('C04', 'sc3/synth/synthdef.py', "        annotations = annotations[skip_args:]\n", "", 'annotations not shifted past the prepended arguments'),
     ('C04', 'sc3/synth/synthdef.py', "            if lag == 'ir' or annot == 'ir' and not overridden:", "            if lag == 'ir' or annot == 'ir':", 'ir annotation wins over an overriding rates entry'),
     ('C04', 'sc3/synth/synthdef.py', "        rates = [x if x is not None else 0.0 for x in rates]", "        rates = [x if x is not None else 0.5 for x in rates]", 'None in rates becomes a lag of 0.5'),
+    ('C18', 'sc3/base/responders.py', "            i = self.active[key].index(old_func)\n            self.active[key][i] = func", "            self.active[key].remove(old_func)\n            self.active[key].append(func)", 'updated responder moves to the end of the firing order'),
+    ('C18', 'sc3/base/responders.py', "            self.free()\n            fn.value(wrapped_func, *args)", "            fn.value(wrapped_func, *args)\n            self.free()", 'one-shot responder freed after its function ran'),
+    ('C18', 'sc3/base/responders.py', "                for func in funcs[:]:\n                    fn.value(func, msg, time, addr, recv_port)\n\n    def type_key(self):\n        return 'OSC matched'", "                for func in funcs[:]:\n                    fn.value(func, msg, time, addr, recv_port)\n                break\n\n    def type_key(self):\n        return 'OSC matched'", 'pattern dispatcher stops at the first matching address'),
+    ('C18', 'sc3/base/responders.py', "            for func in self.active[msg[0]][:]:\n                fn.value(func, msg, time, addr, recv_port)", "            for func in self.active[msg[0]][:]:\n                fn.value(func, msg, time, addr, recv_port)\n                break", 'exact dispatcher fires only the first registered function'),
+    ('C19', 'sc3/synth/envelope.py', "                start_level = target_level\n                begin_time = end_time\n", "                start_level = target_level\n                begin_time = end_time\n                break\n", 'envelope lookup gives up after the first segment'),
+    ('C13', 'sc3/seq/patterns/filterpatterns.py', "            inevent[key] = False\n        return inevent", "        return inevent", 'Pn never clears its key'),
+    ('C17', 'sc3/synth/server.py', "            self._buffer_allocator.free(block.address)\n", "            self._buffer_allocator.free(block.address)\n            break\n", 'only the first block of buffers is freed'),
 ]
 
 
